@@ -170,6 +170,12 @@ func (tc *timeoutCounter) SetTimeoutCount(count int) (set bool) {
 	tc.mutex.Lock()
 	defer tc.mutex.Unlock()
 
+	// apply the configured cap here as well: IncrementTimeoutCount caps the count,
+	// and a larger value set here would be lowered again by the next increment
+	if timeoutCap := viper.GetInt("server_chain.round_timeouts.timeout_cap"); timeoutCap > 0 && count > timeoutCap {
+		count = timeoutCap
+	}
+
 	if count <= tc.count {
 		return // false (not set)
 	}
